@@ -1,5 +1,6 @@
 import Orb.Proto
 import Orb.MVT
+import Orb.ProtoWire
 
 /-! Driver for C03 (Mapbox Vector Tiles) and the MVT share of C05 (`handleHostile`).
     Line formats: see the head of harness/c03.go. -/
@@ -374,6 +375,95 @@ def handleHostile (inp out : List String) : String :=
     | _, _ => "bad output"
   | _ => "bad input"
 
+/-! ### the wire encoding: Go's bytes against `ProtoWire.encodeTile` / `decodeTile` -/
+
+def toHex (bs : List UInt8) : String :=
+  if bs.isEmpty then "empty" else String.join (bs.map fun b => natToHex b.toNat 2)
+
+def firstDiff : List UInt8 → List UInt8 → Nat → Nat
+  | a :: as, b :: bs, i => if a == b then firstDiff as bs (i + 1) else i
+  | _, _, i => i
+
+def werrClass : ProtoWire.WErr → String
+  | .wire => "wire" | .geomTail => "geomtail" | .nonUtf8 => "nonutf8"
+
+/-- `wire`: the harness ships the bytes `mvt.Marshal` wrote.  (1) `encodeTile (marshalVT layers)`
+    must be those bytes; (2) `decodeTile` of Go's bytes must be the structure the generated
+    package reads from them (and the model's own structure); (3) `unmarshalBytes` of Go's bytes
+    must be what `mvt.Unmarshal` returned.  Property: the four marshals are byte-identical, and
+    on the exact domain the bytes unmarshal to the expected layers. -/
+def handleWire (inp out : Toks) : String :=
+  match (do
+    let (raw, rest) ← counted layerP inp
+    if !rest.isEmpty then none else pure raw) with
+  | none => "bad input"
+  | some raw =>
+  match toLayers raw with
+  | none => "skip coord-out-of-int32"
+  | some layers =>
+  let secs := splitSemi out
+  let sec (k : String) : Option Toks := (secs.find? fun s => s.head? == some k).map (·.drop 1)
+  match sec "M", sec "D" with
+  | some [mcls], some [d] =>
+    if d != "1" then "propfail deterministic" else
+    let mvt := marshalVT layers
+    if classOf mvt != mcls then s!"diff M {classOf mvt}" else
+    match mvt with
+    | .ok t =>
+      (match sec "B", (sec "VT").map join, (sec "U").map join with
+       | some [bhex], some implVT, some implU =>
+         match hexBytes (if bhex == "empty" then [] else bhex.toList) with
+         | none => "bad hex"
+         | some goB =>
+           let mb := ProtoWire.encodeTile t
+           if mb != goB then
+             let i := firstDiff mb goB 0
+             s!"diff bytes at {i} of model {mb.length} impl {goB.length}: model {toHex ((mb.drop (i - min i 4)).take 12)}"
+           else
+           match ProtoWire.decodeTile goB with
+           | .err e => s!"diff decodeTile err:{werrClass e}"
+           | .panic w => s!"diff decodeTile panic {w}"
+           | .ok t' =>
+             if showVT t' != implVT then s!"diff decodeTile VT {showVT t'}"
+             else if t' != t then "diff decodeTile structure"
+             else
+             let modelU := showOutcome (ProtoWire.unmarshalBytesWith oriFloat goB)
+             if modelU != implU then s!"diff U {modelU}"
+             else
+             let exact := mvtWF layers && exactDomain layers &&
+               showOutcome (ProtoWire.unmarshalBytes goB) == modelU
+             if exact && implU != showDLayers (expectLayers layers) then "propfail bytes-roundtrip"
+             else if goB.isEmpty then "ok triv-empty-tile"
+             else if exact then s!"ok wire exact len{(Nat.log2 goB.length)}"
+             else if mvtWF layers then "ok wire wf"
+             else s!"ok wire nonwf {(implU.splitOn " ").headD "-"}"
+       | _, _, _ => "bad output")
+    | _ => s!"ok wire marshal-{mcls}"
+  | _, _ => "bad output"
+
+/-- `wireh`: arbitrary bytes through `mvt.Unmarshal`, full outcome, against
+    `ProtoWire.unmarshalBytes`.  Property: no panic. -/
+def handleWireH (inp out : Toks) : String :=
+  match inp, out with
+  | [hx], "U" :: u =>
+    match hexBytes (if hx == "empty" then [] else hx.toList) with
+    | none => "bad hex"
+    | some data =>
+      let implU := join u
+      if implU.startsWith "panic" then "propfail panic unmarshal" else
+      let implErr := implU.startsWith "err"
+      let len := if data.length ≤ 2 then "triv-short" else "hostile"
+      match ProtoWire.decodeTile data with
+      | .panic w => s!"diff decodeTile panic {w}"
+      | .err .nonUtf8 => "skip non-utf8-string"
+      | .err .geomTail => if implErr then s!"ok {len} geomtail err" else s!"ok {len} geomtail lenient"
+      | .err .wire => if implErr then s!"ok {len} wire-err" else "diff U err:wire"
+      | .ok _ =>
+        let modelU := showOutcome (ProtoWire.unmarshalBytesWith oriFloat data)
+        if modelU == implU then s!"ok {len} scanned {(implU.splitOn " ").headD "-"}"
+        else s!"diff U {modelU}"
+  | _, _ => "bad input"
+
 def handle (ts : Toks) : String :=
   match ts with
   | op :: rest =>
@@ -381,6 +471,8 @@ def handle (ts : Toks) : String :=
     match op with
     | "rt" => handleRT inp out
     | "hostile" => handleHostile inp out
+    | "wire" => handleWire inp out
+    | "wireh" => handleWireH inp out
     | _ => "bad op " ++ op
   | [] => "bad empty"
 
